@@ -240,7 +240,10 @@ def run_tree(case, ctx, res):
             res.cell("dep5-rejected-before")
             return
         before = norm_lint(r1.stdout, root)
-        rc = run_cli(["--no-multiprocessing", "--root", str(root), "convert-dep5"], cwd=str(root))
+        from .. import trees as _trees
+
+        ccwd, cgargs = _trees.place_lint(rng, root)
+        rc = run_cli(["--no-multiprocessing"] + cgargs + ["convert-dep5"], cwd=ccwd)
         res.n += 1
         if rc.escaped or rc.exit_code != 0:
             res.violation("convert-failed", f"convert-dep5 exit {rc.exit_code} {rc.exc_type} on a dep5 that lint accepts", dep5=text, tb=rc.exc_tb, **rc.brief())
